@@ -144,8 +144,10 @@ func (d *DNSFilter) filterSetProperties(
 
 	if flt.Enabled {
 		if shouldRestart {
-			// Download the filter contents.
-			shouldRestart, err = d.update(flt)
+			// Download the filter contents.  Keep shouldRestart set even if
+			// the contents haven't changed, since the URL or the enabled flag
+			// has, and so the filters must be reloaded anyway.
+			_, err = d.update(flt)
 		}
 	} else {
 		// TODO(e.burkov):  The validation of the contents of the new URL is
